@@ -293,12 +293,14 @@ def weight_def(eng, res, rule="R-WEIGHT-DEF"):
         n1, g1, lst = kinds_w["single"][0]
         n2, g2 = kinds_w["list-sum"][0]
         n3, lst3 = kinds_t["array"][0]
-        c1 = [x for x in g1 if "len(" in x[0]]
-        c2 = [x for x in g2 if "len(" in x[0]]
-        ok = len(c1) == 1 and len(c2) == 1 and c1[0][0] == c2[0][0] == f"len({lst}) == 1" and c1[0][1] is True and c2[0][1] is False and lst3 == lst
+        from ..lits import guard_lits, has
+
+        c1 = guard_lits(flow, n1)
+        c2 = guard_lits(flow, n2)
+        ok = has(c1, f"len({lst}) == 1") and has(c2, f"len({lst}) != 1") and lst3 == lst
         ok = ok and getattr(n2, "_parent") is getattr(n3, "_parent") and cfg.must_pass(cfg.node_of(n3), cfg.node_of(n2))
         res.ob(rule, fi, "single-vs-list", "exactly one number ⇒ scalar weight; otherwise the list becomes the transition list and weight its sum (same branch)", n1, ok,
-               f"scalar under {c1}, list under {c2}, list variable {lst}/{lst3}")
+               f"scalar under {g1}, list under {g2}, list variable {lst}/{lst3}")
         # the list is every whitespace-separated number between the bars
         d = [x for x in flow.defs if x.name == lst and x.kind == "assign"]
         ok = len(d) == 1 and isinstance(d[0].value, ast.ListComp) and src(d[0].value.elt).startswith("float(") and ".split()" in src(d[0].value.generators[0].iter)
